@@ -4,7 +4,7 @@ From Coq.Strings Require Import Byte.
 From Model Require Import Bytes Utf8.
 From Model Require Import Frame Conn.
 From Model Require Import FrameParser.
-From Proofs Require Import Utf8Facts Utf8Tie ViolationFacts DeliveryFacts StreamViolation StreamViolation2.
+From Proofs Require Import Utf8Facts Utf8Tie ViolationFacts DeliveryFacts StreamViolation StreamViolation2 DeliveryZ StreamViolationZ.
 From Gen Require Import GenUtf8.
 Import ListNotations.
 Open Scope N_scope.
@@ -93,3 +93,25 @@ Proof.
   rewrite <- accepts_iff_wf, <- !validate_rejects_iff_not_viable, <- accepts_iff_wf.
   rewrite viable_iff_not_rejected. vm_compute. repeat split; try reflexivity; discriminate.
 Qed.
+
+(* ... and on a connection that negotiated permessage-deflate (StreamViolationZ.v), where no incremental validation takes
+   place: after any conforming prefix, a compressed text message (one frame, RSV1) that INFLATES to something that is not
+   well-formed UTF-8 -- or that the inflater refuses -- is never delivered: exactly one critical ProtocolError, the feed
+   fails, the messages of the prefix are all that was delivered *)
+Theorem C05_ill_formed_inflated_text_after_conforming_prefix : forall cf app, benign app -> zpos (c_ping_timeout cf) = None ->
+  forall d fs lfs c tape ms tape' f lf rest,
+  Proofs.DeliveryZ.idle_z d c [] tape -> Forall Proofs.DeliveryZ.zframe fs -> forms_ok fs lfs ->
+  Proofs.DeliveryZ.ref_messages_z [] tape fs = Some (ms, [], tape') ->
+  Proofs.DeliveryZ.zframe f -> f_rsv1 f = true -> f_fin f = true -> form_ok lf (blen (f_payload f)) = true ->
+  (f_op f = OP_TEXT \/ f_op f = OP_BINARY) ->
+  (match tape' with
+   | Some (out, _) :: _ => f_op f = OP_TEXT /\ ~ utf8_wf out
+   | None :: _ => True
+   | [] => True
+   end) ->
+  let r := feedf cf app c (encode_all fs lfs ++ enc_frame f lf ++ rest) in
+  snd r <> SOk /\
+  msg_events (k_tr (fst r)) = rev (map ev_of ms) ++ msg_events (k_tr c) /\
+  perrors (k_tr (fst r)) = true :: perrors (k_tr c).
+Proof. exact Proofs.StreamViolationZ.bad_compressed_message_after_prefix. Qed.
+Print Assumptions C05_ill_formed_inflated_text_after_conforming_prefix.
